@@ -248,6 +248,10 @@ class Renderer:
             if f.get("anon"):
                 lines.append(f"{ft['k']} {self.body(ft)};")
                 continue
+            if f.get("inline"):
+                # a named member whose structure type is declared in place: struct { ... } name;
+                lines.append(f"{ft['k']} {self.body(ft)} {f['name']};")
+                continue
             tn, d = self.decl(ft, f["name"])
             bits = f":{f['bits']}" if f["bits"] else ""
             lines.append(f"{tn} {d}{bits};")
@@ -636,6 +640,8 @@ class Gen:
                 sub_anon = cfg["anon"] and rnd.random() < 0.25
                 sub = self.struct(depth - 1, union=sub_union, anon=sub_anon)
                 fields.append(field(fname, sub, anon=sub_anon))
+                if not sub_anon and cfg.get("inline", True) and rnd.random() < 0.2:
+                    fields[-1]["inline"] = True
                 cur[0] = None
                 if not sub.get("allint"):
                     allint = False
